@@ -22,8 +22,9 @@ CLAIMS = {
        "exactly when a row straddles and early split is not allowed, an early split goes to the latest admissible time, both halves "
        "adjacent and carrying the metadata), that the Chunk constructor enforces its range/dtype/type clauses, and that diff is the gap to "
        "the running maximum end. concatenate / merge / Rechunker are not yet under contract (see level_note).",
-  note="Not covered by this check yet: Chunk.concatenate, Chunk.merge, Rechunker.receive/flush/get_splits, sub/superrun bookkeeping "
-       "(abstracted; ValueError from it is allowed). Trusted: pyvc, z3/cvc5, library models (slicing, min/max, ndarray.max, copy), "
+  note="Also proved: Chunk.concatenate for two chunks of one run (spans both, rows of the first followed by the rows of the second, "
+       "refuses out-of-order chunks) and that Chunk.split hands each half the split of the subruns. Not proved: concatenate across "
+       "runs (superrun bookkeeping), Chunk.merge, Rechunker.receive/flush/get_splits - bounded stand-ins. Trusted: pyvc, z3/cvc5, library models (slicing, min/max, ndarray.max, copy), "
        "integers mathematical, numba faithful to the Python source (cross-checked on each stand-in input).",
   technique="contract-based deductive verification (sidecar contracts, loop invariants, AST->VC generator, z3/cvc5)",
   design_ref="DESIGN.md section 6, C07"),
@@ -112,8 +113,10 @@ CLAIMS = {
        "divide_outputs are structural (AST) obligations.",
   note="Not decided: the quantitative clause (pipeline comes to rest after a number of further source chunks independent of the run "
        "length) - whole-pipeline and schedule dependent; divide_outputs only structurally. ThreadedMailboxProcessor.__init__ wiring "
-       "IS under contract: lazy exactly without worker pools and when allowed, divide_outputs gets the same flag, savers of computed "
-       "data drive only in eager mode, each mailbox's capacity is the plugin's max_messages if declared else the processor-wide value.",
+       "IS under contract: lazy exactly without worker pools and when allowed, divide_outputs gets the same flag, the outputs exempt "
+       "from flow control include all other outputs of a multi-output plugin, the divider is fed only with outputs that have no loader, "
+       "savers of computed data drive only in eager mode, each mailbox's capacity is the plugin's max_messages if declared else the "
+       "processor-wide value.",
   technique="contract-based deductive verification (monitor rule, dominance obligations via ghost state) + structural AST obligations",
   design_ref="DESIGN.md section 6, C13"),
  "C06": dict(
@@ -176,8 +179,9 @@ CLAIMS = {
        "the key of the type and of all its descendants and an untracked option never enters a key; StorageFrontend._matches is exact "
        "without fuzzy settings and compares the lineages with the fuzzy parts removed otherwise; Context._plugins_are_cached allows "
        "reuse only under the current context hash; Context.register drops the plugin cache whenever it changes the class registry "
-       "(this obligation failed on the pinned tree: defect F5 - stale reads after re-registration - fixed); nothing is saved while fuzzy "
-       "matching is on. The end-to-end clause (get_array equals a brand-new context on empty storage after any operation sequence), "
+       "(this obligation failed on the pinned tree: defect F5 - stale reads after re-registration - fixed); a child plugin's lineage "
+       "takes only tracked options; DataDirectory._folder_matches accepts a folder only for its own data type and run and, without fuzzy "
+       "settings, only under the identical lineage hash; nothing is saved while fuzzy matching is on. The end-to-end clause (get_array equals a brand-new context on empty storage after any operation sequence), "
        "key sensitivity, exactness of fuzzy acceptance and hash stability across insertion orders / hash seeds are bounded stand-ins.",
   note="Not proved: deterministic_hash / hashablize, _filter_lineage, key_for / get_data_key, DataDirectory's directory lookup, child "
        "plugins' lineage, option validation (strax/config.py). Plugins, options and lineages are opaque values with uninterpreted "
@@ -233,7 +237,13 @@ CLAIMS = {
   design_ref="DESIGN.md section 6 (C09) and 10"),
  "C16": dict(
   category="proof",
-  text="Contract-based deductive proof over the real source of the two ends every copy / rewrite goes through: "
+  text="Contract-based deductive proof over the real source of the decisions of the copy operations - Context.copy_to_frontend gives "
+       "every target frontend a loader of its own, asks for a write location under the source's key and rechunks exactly when asked; "
+       "Context.merge_per_chunk_storage files the merged data under the key of the complete data type only if the groups reach from the "
+       "first to the last chunk of the dependency; dry_load_files reads every chunk for None, exactly the named chunks for a list and "
+       "exactly that chunk for a number; StorageBackend._read_format_split_chunk (rechunk on load) hands out pieces that are contiguous, "
+       "carry the rows of the read chunk in order and cover it to its end (given the assumed contract of Rechunker.get_splits) - and of the "
+       "two ends every copy / rewrite goes through: "
        "StorageBackend._read_and_format_chunk builds a chunk only from rows whose count equals the recorded count (DataCorrupted "
        "otherwise) and gives it exactly the recorded start / end / run id / subruns; Saver.save_from / Saver.save write every chunk they "
        "receive exactly once under consecutive numbers with the chunk's own row count, range and annotations and finalise only after "
@@ -241,8 +251,8 @@ CLAIMS = {
        "target sizes x serial / thread / process x replace x progress bar), rechunk on load and per-chunk building + "
        "merge_per_chunk_storage load to exactly the original rows with consistent metadata and an intact source is a bounded stand-in "
        "on the real code (the earlier defects F8 and F13 found here are fixed).",
-  note="Not proved: copy_to_frontend, merge_per_chunk_storage, file_rechunker.rechunker, _read_format_split_chunk / "
-       "Rechunker.get_splits, the Rechunker, dry_load_files and the codecs - bounded stand-in only.",
+  note="Not proved: the data path of copy_to_frontend / merge_per_chunk_storage (their wrapped loaders), file_rechunker.rechunker, "
+       "Rechunker.get_splits (assumed contract) and the Rechunker, the codecs - bounded stand-in only.",
   technique="contract-based deductive verification (obligations at the Chunk constructor call via hooks; Saver contracts) + bounded stand-in on the real code",
   design_ref="DESIGN.md section 6 (C16) and 10"),
  "C01": dict(
@@ -252,7 +262,10 @@ CLAIMS = {
        "hands the computation exactly the rows of time-aligned inputs and declares the result for exactly that interval; "
        "Plugin._fix_output wraps a result into a chunk of the declared data type, range and dtype or refuses it; continuity_check lets "
        "only gap-free, overlap-free chunk sequences through; ThreadedMailboxProcessor.__init__ wires lazy mode, drivers and "
-       "capacities as specified (the mailbox transport itself is C05). The composed statement - get_iter's rows equal the whole-run "
+       "capacities as specified and feeds a multi-output divider only with outputs that are not loaded from storage (failed on the "
+       "pinned tree: defect F22, fixed); in the single-thread processor PostOffice numbers, caches and hands every produced message to "
+       "every spy, tells a reader that a message will never come only beyond the last one produced, and SaverSpy saves every chunk "
+       "once under consecutive numbers (the mailbox transport itself is C05). The composed statement - get_iter's rows equal the whole-run "
        "computation and the chunks tile the run, independent of source chunking, processor, workers, lazy / eager, capacity, rechunk on "
        "save and stored subset - is a bounded stand-in on the real Context for a graph with row-wise, filtering, same-kind merging, "
        "multi-output, overlap-window and exhaust plugins.",
